@@ -21,7 +21,7 @@
    and the v1 resolver's refinement r7. *)
 From Coq Require Import Permutation Sorted.
 From Verif Require Import Lib.Bytes StateRes.Event StateRes.Kahn StateRes.V2 StateRes.V1 StateRes.Entry
-     StateRes.SortProofs StateRes.KahnProofs StateRes.OrderProofs StateRes.ResultProofs StateRes.CmpProofs StateRes.KahnOrderProofs StateRes.V2Spec StateRes.OrderSetProofs StateRes.SplitProofs StateRes.ChainProofs StateRes.ChainCompleteProofs StateRes.AuthDiffProofs StateRes.V1Proofs.
+     StateRes.SortProofs StateRes.KahnProofs StateRes.OrderProofs StateRes.ResultProofs StateRes.CmpProofs StateRes.KahnOrderProofs StateRes.V2Spec StateRes.OrderSetProofs StateRes.SplitProofs StateRes.ChainProofs StateRes.ChainCompleteProofs StateRes.AuthDiffProofs StateRes.V1Proofs StateRes.V1Spec StateRes.V1SpecProofs StateRes.SubgraphProofs StateRes.PowerSetProofs StateRes.IterAuthProofs StateRes.AuthDiff21Proofs StateRes.ComposeProofs.
 
 Section C10.
   Variable allowed : event -> list event -> bool.
@@ -150,11 +150,118 @@ Theorem auth_difference_is_spec (shE : list event -> list event) (authmap confli
 Proof. intro P. apply auth_difference_new_is_spec. exact P. Qed.
 
 
-(* v1: ResolveStateConflicts picks conflicted events - every event it returns is one of the
-   conflicted events it was given, for every auth oracle. (PARTIAL with respect to
-   v1_resolves_per_spec: that the pick per key is the one 6.2 r7 prescribes is tied to the code
-   by the correspondence only.) *)
-Theorem v1_resolves_per_spec_partial allowed conflicted auth_events x :
+
+(* v2.1: the conflicted subgraph the library adds to the auth difference (path enumeration from
+   every conflicted event of every state set, DFS with the exploration path) is exactly the
+   specification's: the auth events lying on an auth path from a conflicted event of a state
+   set to a conflicted event. For an acyclic auth relation; the state-set events are the auth
+   map's events of their IDs. *)
+Theorem conflicted_subgraph_is_spec authmap conflicted sets (rank : bytes -> nat) x :
+  (forall a b, auth_step authmap a b -> (rank (e_id b) < rank (e_id a))%nat) ->
+  (forall s o y, In s sets -> In o s -> find_event (e_id o) authmap = Some y -> y = o) ->
+  (In x (complete_subgraph authmap conflicted sets) <-> spec_conflicted_subgraph authmap conflicted sets x).
+Proof. apply conflicted_subgraph_spec. Qed.
+
+
+(* 6.2 r5: the power set. As a SET, the list fullControlSet produces (one visited set shared by
+   all roots, repeats included) is exactly: the conflicted control events of the full conflicted
+   set together with everything they reach through auth events that are themselves events of
+   the conflicted map. Acyclic auth relation on the conflicted map. *)
+Theorem power_set_is_spec cm unconflicted full (rank : bytes -> nat) x :
+  (forall a b, auth_step cm a b -> (rank (e_id b) < rank (e_id a))%nat) ->
+  (In x (control_events cm unconflicted full) <-> spec_power_set cm unconflicted full x).
+Proof. intro H. apply (power_set_spec cm rank H). Qed.
+
+
+(* iterative auth checks: (1) what the auth rules are shown for an event checked against a
+   partial state st is, in the order of the keys the event needs, the partial state's event of
+   the key if there is one, else the event's own last supplied non-rejected auth event of that
+   key (after the F7 repair); (2) the loop applies an event exactly when the rules allow it
+   against those events. needs_ok: the needed keys are distinct and the needed member /
+   third-party-invite state keys are non-empty (true of every event with a non-empty sender). *)
+Theorem iterative_auth_shows_spec_events rejected authmap st e :
+  smap_wf st -> needs_ok e ->
+  smap_values (auth_provider rejected authmap st e) = spec_auth_events_v2 rejected authmap (smap_get st) e.
+Proof. intros W [N1 [N2 N3]]. apply auth_provider_is_spec; assumption. Qed.
+
+Theorem iterative_auth_is_spec allowed rejected authmap l r :
+  smap_wf (r_state r) -> (forall e, In e l -> needs_ok e) ->
+  spec_iterative_auth allowed rejected authmap (r_state r) l
+                      (r_state (auth_and_apply allowed rejected authmap r l)).
+Proof. apply iterative_auth_spec. Qed.
+
+
+(* v2.1 auth difference with the conflicted subgraph, as a set *)
+Theorem auth_difference_v21_is_spec (shE : list event -> list event) authmap conflicted sets (rank : bytes -> nat) x :
+  (forall l, Permutation (shE l) l) ->
+  (forall a b, auth_step authmap a b -> (rank (e_id b) < rank (e_id a))%nat) ->
+  (forall s o y, In s sets -> In o s -> find_event (e_id o) authmap = Some y -> y = o) ->
+  (In x (auth_difference_new shE true authmap conflicted sets) <->
+   spec_auth_difference authmap sets x \/ spec_conflicted_subgraph authmap conflicted sets x).
+Proof. apply auth_difference_v21_spec. Qed.
+
+(* The composition for v2.1 (resolve_v2_new with v21 = true): there are partial states st1, st2
+   such that every stage is the specification's stage and the driver chains them as specified:
+   the unconflicted events are the specification's; the full conflicted set is the conflicted
+   events + auth difference + conflicted subgraph; the power set is its closure (r5); the
+   iterative auth checks start from the EMPTY state, run over the power events in the library's
+   power order, then over the remaining events in mainline order, each event judged against the
+   specification's auth events; the unconflicted state is re-applied last.
+   PARTIAL in two named respects (both tied to the code by the correspondence):
+   (1) missing lemma conflicted_is_spec: the events reported CONFLICTED by the split are left as
+       the model computes them (split_is_spec characterises the unconflicted ones);
+   (2) missing lemma power_order_with_repeats_is_spec: the control list carries the repeats
+       fullControlSet produces, and the position of events whose in-degree never reaches zero
+       because of a repeated descendant (6.2 r3) is defined by the library's algorithm only; for
+       a repeat-free list the order is the specification's (power_order_is_library_order). *)
+Theorem resolve_v2_refines_spec_partial
+  allowed rejected (shE : list event -> list event) (shP : list pwrap -> list pwrap) (shG : groups -> groups)
+  priv cl ud sets auth_events (rank : bytes -> nat) :
+  (forall l, Permutation (shE l) l) -> (forall l, Permutation (shP l) l) -> (forall l, Permutation (shG l) l) ->
+  auth_events <> [] ->
+  (forall s, In s sets -> NoDup (ids_of s)) -> ids_identify (concat sets) ->
+  let authmap := dedup_events auth_events in
+  let conflicted := fst (split_conflicted shG false sets) in
+  let unconflicted := snd (split_conflicted shG false sets) in
+  let cm := dedup_events conflicted in
+  let full := conflicted ++ auth_difference_new shE true authmap conflicted sets in
+  let control := control_events cm unconflicted full in
+  let others := other_events unconflicted full control in
+  (forall a b, auth_step authmap a b -> (rank (e_id b) < rank (e_id a))%nat) ->
+  (forall a b, auth_step cm a b -> (rank (e_id b) < rank (e_id a))%nat) ->
+  (forall s o y, In s sets -> In o s -> find_event (e_id o) authmap = Some y -> y = o) ->
+  (forall e, In e (concat sets) \/ In e auth_events -> needs_ok e) ->
+  exists st1 st2,
+    (forall e, In e unconflicted <-> In e (dedup_events (concat sets)) /\ spec_unconflicted sets e) /\
+    (forall x, In x full <-> In x conflicted \/ spec_auth_difference authmap sets x
+                             \/ spec_conflicted_subgraph authmap conflicted sets x) /\
+    (forall x, In x control <-> spec_power_set cm unconflicted full x) /\
+    (forall x, In x others <-> In x full /\ has_event (e_id x) unconflicted = false /\
+                               is_control_event x = false /\ has_event (e_id x) control = false) /\
+    spec_iterative_auth allowed rejected authmap [] (power_order shP priv cl ud authmap None control) st1 /\
+    spec_iterative_auth allowed rejected authmap st1 (mainline_order authmap (smap_get st1 (t_power, [])) others) st2 /\
+    r_state (resolve_v2_new allowed rejected shE shP shG priv cl ud true sets auth_events) = apply_events st2 unconflicted.
+Proof. intros. apply resolve_v21_stages with (rank := rank); assumption. Qed.
+
+(* v1 (DESIGN.md 6.2 r7): the model of ResolveStateConflicts returns exactly the list the
+   per-key specification StateRes/V1Spec.v defines - per conflicted key, in the order create,
+   power levels, join rules, third-party invites, members, the candidates oldest first by
+   (depth, SHA-1 descending), the walk that stops at the first candidate failing the auth
+   rules against the state resolved so far plus the current candidate, results of a type
+   registered only when the type is done; every other key: the newest candidate that passes
+   against the final auth state, else the oldest. Preconditions: the conflicted events are
+   distinct state events whose sort key identifies them, and (as ResolveStateConflicts
+   documents) none of the auth events sits under a conflicted key. *)
+Theorem v1_resolves_per_spec allowed conflicted auth_events :
+  NoDup (ids_of conflicted) ->
+  (forall a b, In a conflicted -> In b conflicted -> v1_cmp a b = Eq -> a = b) ->
+  (forall e, In e conflicted -> e_skey e <> None) ->
+  auth_events_unconflicted conflicted auth_events = true ->
+  v_result (resolve_v1 allowed conflicted auth_events) = spec_resolve_v1 allowed conflicted auth_events.
+Proof. apply resolve_v1_is_spec. Qed.
+
+(* and, with no precondition at all, it returns only conflicted events it was given *)
+Theorem v1_returns_conflicted_events allowed conflicted auth_events x :
   In x (v_result (resolve_v1 allowed conflicted auth_events)) -> In x conflicted.
 Proof. apply v1_picks_conflicted_events. Qed.
 
@@ -188,5 +295,12 @@ Print Assumptions mainline_order_sorted.
 Print Assumptions split_is_spec.
 Print Assumptions full_auth_chain_is_spec.
 Print Assumptions auth_difference_is_spec.
-Print Assumptions v1_resolves_per_spec_partial.
+Print Assumptions conflicted_subgraph_is_spec.
+Print Assumptions power_set_is_spec.
+Print Assumptions iterative_auth_shows_spec_events.
+Print Assumptions iterative_auth_is_spec.
+Print Assumptions auth_difference_v21_is_spec.
+Print Assumptions resolve_v2_refines_spec_partial.
+Print Assumptions v1_resolves_per_spec.
+Print Assumptions v1_returns_conflicted_events.
 Print Assumptions result_is_a_state_map.
